@@ -35,6 +35,12 @@ func runC13(c *Ctx) {
 	c12Suffixed(c)
 	writerMethodRules(c, "C13")
 	protocolErrorKindRules(c, "C13")
+	// the compressed round trip runs through the whole wsflate writer / reader plumbing
+	c12Tails(c)
+	c12Cbuf(c)
+	c12Writer(c)
+	c12Helpers(c)
+	c18Flate(c)
 }
 
 func c13RsvLayout(c *Ctx) {
